@@ -43,13 +43,20 @@ def replay(rec: Dict[str, Any]) -> List[Tuple[str, Dict[str, Any], str]]:
     docs = _state["docs"]
     ctx_t = _state["ctx"]
     root = rec["q"]["root"]
+    bad: List[Tuple[str, Dict[str, Any], str]] = []
     for si, t in enumerate(rec["texts"]):
         text = untext(t)
         try:
             path = jsonpath.compile(text)
         except BaseException as e:  # noqa: BLE001
-            return [(f"compile-raised-{exc_family(e)}|style{si}|{'+'.join(sorted(expr_features(rec['q'])))}",
-                     {"query": text, "tagged": rec}, f"documented syntax rejected: {type(e).__name__}: {e}")]
+            feats = '+'.join(sorted(expr_features(rec['q'])))
+            if any(sel.get("k") == "name" and untext(sel["s"])[:1] == "_" for seg in rec["q"]["segs"] for sel in seg["sels"]) and "['_" not in text and '["_' not in text:
+                feats = "bare-name-begins-with-the-filter-context-spelling"
+            bad.append((f"compile-raised-{exc_family(e)}|{feats}" if feats.startswith("bare-name") else f"compile-raised-{exc_family(e)}|style{si}|{feats}",
+                        {"query": text, "tagged": rec}, f"documented syntax rejected: {type(e).__name__}: {e}"))
+            if feats.startswith("bare-name"):
+                continue        # the recorded finding: go on with the other spellings
+            return bad
         for d, dt in enumerate(docs):
             doc = untag(dt["doc"])
             ctx = untag(ctx_t)
@@ -75,10 +82,10 @@ def replay(rec: Dict[str, Any]) -> List[Tuple[str, Dict[str, Any], str]]:
                     break
             if disc:
                 sig = f"{disc}|{rec['universe']}|{'+'.join(sorted(expr_features(rec['q'])))}"
-                return [(sig, {"query": text, "style": si, "standard_spelling": untext(rec["texts"][0]), "doc": show(dt["doc"]),
+                return bad + [(sig, {"query": text, "style": si, "standard_spelling": untext(rec["texts"][0]), "doc": show(dt["doc"]),
                                "filter_context": show(ctx_t), "second_filter_context": show(_state["ctx2"]), "expected_values": [show(tag(value_at([untag(dt["doc"])] if root == "^" else (untag(ctx_t) if root == "_" else untag(dt["doc"])), l))) for l in rec["res"][d]],
                                "observed_values": obs_vals, "tagged": rec}, disc)]
-    return []
+    return bad[:1]
 
 
 def replay_random_values(rec: Dict[str, Any]) -> List[Tuple[str, Dict[str, Any], str]]:
